@@ -693,8 +693,9 @@ static void run_power(Ctx& ctx) {
 }
 
 // ------------------------------------------------------------------------------------------- reductions
-static const int NLET = 8;
-static const char* LET[NLET] = {"index", "constant", "alternating", "two-level", "lcg", "max-tie-ends", "min-tie-ends", "neg-index"};
+static const int NLET = 14;
+static const char* LET[NLET] = {"index", "constant", "alternating", "two-level", "lcg", "max-tie-ends", "min-tie-ends", "neg-index",
+                                "zeros+", "zeros-", "zeros-mixed", "one-nonzero-first", "one-nonzero-mid", "one-nonzero-last"};
 static double rlet(int l, int i, int n) {
     switch (l) {
     case 0: return i + 1;
@@ -704,7 +705,13 @@ static double rlet(int l, int i, int n) {
     case 4: return lcg_val(1701, (uint64_t)i) * 3;
     case 5: return (i == 0 || i == n - 1) ? 9.0 : (i % 4) - 1.0;
     case 6: return (i == 0 || i == n - 1) ? -9.0 : (i % 4) - 1.0;
-    default: return -(i + 1) * 0.3;
+    case 7: return -(i + 1) * 0.3;
+    case 8: return 0.0;
+    case 9: return -0.0;
+    case 10: return (i % 2) ? -0.0 : 0.0;
+    case 11: return i == 0 ? -2.5 : 0.0;
+    case 12: return i == n / 2 ? -2.5 : ((i % 2) ? -0.0 : 0.0);
+    default: return i == n - 1 ? -2.5 : -0.0;
     }
 }
 static cmplx_t clet(int l, int i, int n) {   // moduli are distinct unless the elements are identical (max/min by modulus well defined)
@@ -716,7 +723,13 @@ static cmplx_t clet(int l, int i, int n) {   // moduli are distinct unless the e
     case 4: return cmplx_t(lcg_val(1702, (uint64_t)i) * 3, lcg_val(1703, (uint64_t)i) * 3);
     case 5: return (i == 0 || i == n - 1) ? cmplx_t(9, -9) : cmplx_t((i % 4) + 1.0, 1);
     case 6: return (i == 0 || i == n - 1) ? cmplx_t(0.125, 0) : cmplx_t((i % 4) + 1.0, 1);
-    default: return cmplx_t(-(i + 1) * 0.3, (i + 1) * 0.4);
+    case 7: return cmplx_t(-(i + 1) * 0.3, (i + 1) * 0.4);
+    case 8: return cmplx_t(0.0, 0.0);
+    case 9: return cmplx_t(-0.0, -0.0);
+    case 10: return (i % 2) ? cmplx_t(-0.0, 0.0) : cmplx_t(0.0, -0.0);
+    case 11: return i == 0 ? cmplx_t(1.5, -2) : cmplx_t(0.0, 0.0);
+    case 12: return i == n / 2 ? cmplx_t(1.5, -2) : ((i % 2) ? cmplx_t(-0.0, 0.0) : cmplx_t(0.0, -0.0));
+    default: return i == n - 1 ? cmplx_t(1.5, -2) : cmplx_t(-0.0, -0.0);
     }
 }
 
@@ -750,13 +763,12 @@ static void run_reductions(Ctx& ctx) {
                 const arr_real xr = to_arr_real(x), yr = to_arr_real(y);
                 const P par = P().kv("type", ty).kv("letter", LET[l]).kv("n", n);
                 const double ne = (n + 8) * EPS;
-                ld sabs = 0, sabs2 = 0, sabs3 = 0, maxabs = 0;
+                ld sabs = 0, sabs2 = 0, maxabs = 0;
                 cld s = 0;
                 for (auto& v : x) {
                     s += v;
                     sabs += std::abs(v);
                     sabs2 += std::norm(v);
-                    sabs3 += std::abs(v) * std::norm(v);
                     maxabs = std::max(maxabs, std::abs(v));
                 }
                 // ---- sum, mean
@@ -765,8 +777,8 @@ static void run_reductions(Ctx& ctx) {
                     const cmplx_t g = cplx ? d::sum(xc) : cmplx_t(d::sum(xr), 0), m = cplx ? d::mean(xc) : cmplx_t(d::mean(xr), 0);
                     const double e1 = (double)std::abs(cld(g.re, g.im) - s), t1 = ne * (double)sabs;
                     const double e2 = (double)std::abs(cld(m.re, m.im) - s / (ld)n), t2 = ne * (double)sabs / n;
-                    ctx.worst("sum err/tol", e1 / t1);
-                    ctx.worst("mean err/tol", e2 / t2);
+                    if (t1 > 0) ctx.worst("sum err/tol", e1 / t1);   // all-zero letters: tolerance 0, the result must be exactly zero
+                    if (t2 > 0) ctx.worst("mean err/tol", e2 / t2);
                     if (!(e1 <= t1)) ctx.fail("sum", "sum=" + cs(g), cs(s));
                     if (!(e2 <= t2)) ctx.fail("mean", "mean=" + cs(m), cs(s / (ld)n));
                 }
@@ -793,7 +805,7 @@ static void run_reductions(Ctx& ctx) {
                             acc += x[(size_t)i];
                             aabs += std::abs(x[(size_t)i]);
                             const double e = (double)std::abs(cld(g[i].re, g[i].im) - acc), t = (k + 9) * EPS * (double)aabs;
-                            ctx.worst("cumsum err/tol", e / t);
+                            if (t > 0) ctx.worst("cumsum err/tol", e / t);
                             if (!(e <= t)) {
                                 ctx.fail("cumsum", fmt("cumsum(%s)[%d]=%s", dir ? "Reverse" : "Forward", i, cs(g[i]).c_str()), cs(acc), P().kv("dir", dir).kv("i", i));
                                 break;
@@ -815,7 +827,7 @@ static void run_reductions(Ctx& ctx) {
                     const cmplx_t g = cplx ? d::dot(xc, yc) : cmplx_t(d::dot(xr, yr), 0);
                     const double t = ne * (double)terms;
                     const double eb = (double)std::abs(cld(g.re, g.im) - b), e1 = (double)std::abs(cld(g.re, g.im) - h1), e2 = (double)std::abs(cld(g.re, g.im) - h2);
-                    ctx.worst("dot err/tol", std::min(eb, std::min(e1, e2)) / t);
+                    if (t > 0) ctx.worst("dot err/tol", std::min(eb, std::min(e1, e2)) / t);
                     if (cplx) ctx.note(eb <= t ? "dot(cmplx) matches bilinear sum x*y" : (e1 <= t ? "dot(cmplx) matches sum conj(x)*y" : "dot(cmplx) matches sum x*conj(y) or nothing"));
                     if (!(eb <= t || e1 <= t || e2 <= t)) ctx.fail("dot", "dot=" + cs(g), cs(b));
                 }
@@ -847,14 +859,20 @@ static void run_reductions(Ctx& ctx) {
                 // ---- norm p = 1, 2, 3 and the default (2)
                 if (ctx.take("reduce.norm", par)) {
                     if (n >= 2) ctx.nontrivial();
-                    for (int p = 0; p <= 3; ++p) {
+                    for (int p : {0, 1, 2, 3, 4, 8}) {   // 0 = default argument (2)
                         double g;
                         if (p == 0) g = cplx ? d::norm(xc) : d::norm(xr);
                         else g = cplx ? d::norm(xc, p) : d::norm(xr, p);
-                        const ld ref = (p == 1) ? sabs : (p == 3 ? cbrtl(sabs3) : sqrtl(sabs2));
-                        // p = 3: the exponent 1/3 is rounded -> extra relative error |ln S| eps / 3
-                        const double tol = (ne + (p == 3 ? EPS * (8 + std::fabs((double)logl(sabs3))) : 0.0)) * (double)ref;
-                        if (!red_ok(ctx, p == 3 ? "norm3" : "norm1/2", g, ref, tol)) red_fail(ctx, "norm", fmt("norm(x,%d)", p), g, ref, tol, P().kv("p", p));
+                        ld ref, sp = 0;
+                        if (p >= 3) {
+                            for (auto& v : x) sp += powl(std::abs(v), (ld)p);
+                            ref = powl(sp, 1.0L / p);
+                        } else {
+                            ref = (p == 1) ? sabs : sqrtl(sabs2);
+                        }
+                        // p >= 3: the exponent 1/p may be rounded -> extra relative error |ln S| eps / p; an all-zero vector has norm exactly 0
+                        const double tol = (ne + ((p >= 3 && sp > 0) ? EPS * (8 + std::fabs((double)logl(sp))) : 0.0)) * (double)ref;
+                        if (!red_ok(ctx, p >= 3 ? "norm p>=3" : "norm1/2", g, ref, tol)) red_fail(ctx, "norm", fmt("norm(x,%d)", p), g, ref, tol, P().kv("p", p));
                     }
                 }
                 // ---- min / max / argmin / argmax / peak2peak (complex: ordered by modulus); any position of a tie is accepted
@@ -878,6 +896,21 @@ static void run_reductions(Ctx& ctx) {
                     }
                     if (!fmax) ctx.fail("max", "max=" + cs(vmax), "a maximal element of the array");
                     if (!fmin) ctx.fail("min", "min=" + cs(vmin), "a minimal element of the array");
+                    // max(x) and x[argmax(x)] agree (real: same value; complex: same magnitude, and the same value unless distinct
+                    // elements tie in magnitude - no tie convention is demanded); likewise min
+                    if (imax >= 0 && imax < n && imin >= 0 && imin < n) {
+                        bool one_max = true, one_min = true;   // all maximal / minimal elements carry the same value
+                        for (int i = 0; i < n; ++i) {
+                            const cmplx_t e = cplx ? xc[i] : cmplx_t(xr[i], 0), em = cplx ? xc[imax] : cmplx_t(xr[imax], 0), en = cplx ? xc[imin] : cmplx_t(xr[imin], 0);
+                            if (key(i) == kmax && !(e.re == em.re && e.im == em.im)) one_max = false;
+                            if (key(i) == kmin && !(e.re == en.re && e.im == en.im)) one_min = false;
+                        }
+                        const cmplx_t am = cplx ? xc[imax] : cmplx_t(xr[imax], 0), an = cplx ? xc[imin] : cmplx_t(xr[imin], 0);
+                        const double kvmax = cplx ? vmax.re * vmax.re + vmax.im * vmax.im : vmax.re, kvmin = cplx ? vmin.re * vmin.re + vmin.im * vmin.im : vmin.re;
+                        if (kvmax != kmax || (one_max && !(am.re == vmax.re && am.im == vmax.im))) ctx.fail("max", "max=" + cs(vmax) + fmt(" but x[argmax=%d]=", imax) + cs(am), "max(x) == x[argmax(x)]", P().kv("what", "consistency"));
+                        if (kvmin != kmin || (one_min && !(an.re == vmin.re && an.im == vmin.im))) ctx.fail("min", "min=" + cs(vmin) + fmt(" but x[argmin=%d]=", imin) + cs(an), "min(x) == x[argmin(x)]", P().kv("what", "consistency"));
+                        ctx.note((one_max && one_min) ? "minmax extremes single-valued" : "minmax distinct elements tie in magnitude");
+                    }
                     // peak2peak = (a maximal element) - (a minimal element); with ties in modulus any such pair is accepted
                     const cmplx_t pp = cplx ? d::peak2peak(xc) : cmplx_t(d::peak2peak(xr), 0);
                     bool okpp = false;
